@@ -195,13 +195,22 @@ def replay_native(ctx, params, cinit, workdir, tag):
     if rc != 0:
         return None, "replay build failed: " + e[-1500:]
     env = dict(os.environ, ASAN_OPTIONS="detect_leaks=0:abort_on_error=0", UBSAN_OPTIONS="print_stacktrace=1")
-    rc, o, e, _ = run([exe], 120, 64, env=env)
+    # no RLIMIT_AS here: ASan must reserve terabytes of shadow address space
+    try:
+        p = subprocess.run([exe], stdout=subprocess.PIPE, stderr=subprocess.PIPE, env=env, timeout=120)
+        rc, o, e = p.returncode, p.stdout.decode("utf8", "replace"), p.stderr.decode("utf8", "replace")
+    except subprocess.TimeoutExpired:
+        return None, "replay timed out"
     log = (o + e)[-3000:]
+    if "ReserveShadowMemoryRange" in log or "failed to allocate" in log:
+        return None, "replay unusable (sanitizer could not start): " + log[-400:]
     if rc == 3 and "ASSUME-FAIL" in o:
         return None, "replay: assumption not satisfied natively (stubbed nondeterminism involved)\n" + log
-    if rc == 0:
+    if rc == 0 and "REPLAY-PASS" in o:
         return False, log
-    return True, log
+    if "ASSERT-FAIL" in o or "ERROR: AddressSanitizer" in e or "runtime error:" in e:
+        return True, log
+    return None, "replay ended rc=%s without a recognisable verdict: %s" % (rc, log[-600:])
 
 
 def cbmc_query(qid, params, ctx):
